@@ -362,6 +362,10 @@ ITER_POST = [
     ("req-reaches-storage-unless-limited",
      "implies(%s and %s, ghost('sub_calls') == head_sub_calls + 1 or (ghost('limiter_calls') == head_limiter_calls + 1 and ghost('n_notice') == head_n_notice + 1))" % (REQ_IT, DONE)),
     ("subscribe-only-for-req", "implies(not (%s), ghost('sub_calls') == head_sub_calls)" % REQ_IT),
+    # C13: whatever subscribe() queued for this REQ (stored events, the EOSE sentinel) needs the sender task to reach the client:
+    # once a REQ was accepted by storage the task exists, whether or not a subscription got registered
+    ("accepted-req-has-a-sender",
+     "implies(%s and %s and ghost('sub_calls') == head_sub_calls + 1 and ghost('sub_outcome') == 1, ghost('task_created'))" % (REQ_IT, DONE)),
     # C15: the identity changes only when authenticate() returned, and then to exactly its token
     ("identity-unchanged-unless-authenticated",
      "implies(not (ghost('auth_calls') == head_auth_calls + 1 and ghost('auth_outcome') == 1), auth_token == head_auth_token)"),
@@ -421,7 +425,7 @@ start_client.param_defaults = {
 start_client.obligation_props = [
     ("iter:one-ok-per-event", ["C06"]), ("iter:at-most-one-ok", ["C06"]), ("iter:ok-", ["C06"]), ("iter:event-stored-at-most-once", ["C06"]),
     ("iter:no-ok-without-event", ["C06"]),
-    ("iter:refused-req", ["C13"]), ("iter:accepted-req", ["C13"]), ("iter:req-reaches", ["C13"]), ("iter:subscribe-only-for-req", ["C13"]),
+    ("iter:refused-req", ["C13"]), ("iter:accepted-req", ["C13"]), ("iter:accepted-req-has-a-sender", ["C13"]), ("iter:req-reaches", ["C13"]), ("iter:subscribe-only-for-req", ["C13"]),
     ("iter:identity-unchanged", ["C15"]), ("iter:authenticate-", ["C15"]), ("inv:challenge-fixed", ["C15"]), ("inv:one-challenge", ["C15"]),
     ("post:one-challenge", ["C15"]),
     ("iter:limiter-before-effects", ["C18"]),
